@@ -13,6 +13,8 @@ P = {
          "Rocq/Coq proof (invariants and isolation by induction over histories) + model/implementation correspondence (vm_compute)", "DESIGN.md §4 C10"),
  "C17": ("For every registry reachable from the tables regenerated from the source (their consistency is checked by computation) by ANY list of RegisterLevel calls: name, text and JSON round trips for every level (invariant preserved by registration, induction over the call list; JSON for any string codec with its own round trip), refusal of a used value/title with all tables unchanged, effects of a successful registration (title, treated-as gating, error-device routing, given short tags), ShortTag(n) length n for levels without custom tags and for the built-in tags. Correspondence: built-ins + random registration histories with colliding/negative/large values, titles of any case, all options; model registry evaluated on the same calls and compared per level (String, ShortTag 1..5, ParseLevel, treated-as, error device); direct oracle = the statement.",
          "Rocq/Coq proof (registry invariant by induction over registrations; tables regenerated from source) + model/implementation correspondence (vm_compute)", "DESIGN.md §4 C17"),
+ "C18": ("Model of checkpath over bytes with the mapping table as a LIST in iteration order; theorems hold for every permutation of the table (Go's map order): no protected prefix in the result for a path under a key (hypotheses: absolute keys, non-empty relative replacements - their necessity is shown by refutation witnesses), the prefix is replaced by its short form only (not inner occurrences), paths under no key are returned unchanged or as the shorter relative path, totality (both slice expressions in range), flag-off identity, table add/remove semantics. Correspondence: random Add/Remove/Reset/flag scenarios, 12-20 paths each in every class, 40-50 repetitions to sample map orders, Safety/SafetyFiles/caller field agreement; every observed result must be among the model's results over all permutations; direct oracle = the statement (P1-P3).",
+         "Rocq/Coq proof (quantified over all permutations of the mapping table) + model/implementation correspondence (vm_compute)", "DESIGN.md §4 C18"),
  "C11": ("Three-state machine for every list of mode calls, mutual-exclusion invariant over every reachable logger tree, getter/shape agreement, locality - proved in Coq about Model/Mode.v and Model/Tree.v; correspondence: exhaustive short call sequences + random histories on the real loggers, evaluated by vm_compute; direct oracle = the statement's machine.",
          "Rocq/Coq proof (induction over call lists and histories) + model/implementation correspondence (vm_compute)", "DESIGN.md §4 C11"),
 }
